@@ -422,8 +422,8 @@ theorem class_log_shape (env : Env) (fuel : Nat) (c : Class) (indent : String) (
         ++ (c.classes.filter (·.isPublic)).flatMap (n03_classLog env fuel)
         ++ (c.methods.filter fun m => !methodSkipped m false []).map
             (fun m => (if m.isProperty then "prop" else "fun", m.id))
-        ++ (if !c.superclasses.isEmpty && !c.isAbstract then
-              (c.superclasses.filter fun s => isInternal (lastD "" (splitDot s))).flatMap
+        ++ (if !c.renderedSupers.isEmpty && !c.isAbstract then
+              (c.renderedSupers.filter fun s => isInternal (lastD "" (splitDot s))).flatMap
                 (fun sc => n03_internalLog env fuel sc (n03_ownNames c))
             else [])
         ++ [("endclass", c.id)]) := by
@@ -454,8 +454,8 @@ theorem classLog_eq (env : Env) (fuel : Nat) (c : Class) :
       (n03_attrLog c.attributes
         ++ (c.classes.filter (·.isPublic)).flatMap (n03_classLog env fuel)
         ++ n03_methLog false [] c.methods
-        ++ (if !c.superclasses.isEmpty && !c.isAbstract then
-              (c.superclasses.filter n03_privSuper).flatMap (fun sc => n03_internalLog env fuel sc (n03_ownNames c))
+        ++ (if !c.renderedSupers.isEmpty && !c.isAbstract then
+              (c.renderedSupers.filter n03_privSuper).flatMap (fun sc => n03_internalLog env fuel sc (n03_ownNames c))
             else [])
         ++ [("endclass", c.id)]) :=
   ⟨by rw [n03_classLog], n03_classLog_succ env fuel c⟩
